@@ -248,12 +248,13 @@ def build_jobs(run, recl_default):
     extra = [fit("daily", rng.randrange(500000, 900000)) for _ in range(run.n(6, 12))]
     job("cold-jit", [fit("daily", dsd[1]), fit("billing", dsb[1])] + extra, cold=True)
     dev = fit("daily", dsd[0], "devalpha")
-    pop = job("jit-populated-by-developer-profile", [dev, fit("daily", dsd[0]), fit("daily", dsd[1]), fit("billing", dsb[0])],
+    pop = job("jit-populated-by-developer-profile", [dev, fit("daily", dsd[0])] + ([fit("daily", dsd[1]), fit("billing", dsb[0])] if thorough else []),
               cache="dev", stage=0)
     popspec = {k: pop[k] for k in ("label", "ops", "threads", "imports", "cold", "cache")}
-    h = len(extra) // 2
-    job("jit-reuse-developer-cache", [fit("daily", dsd[1]), fit("billing", dsb[1])] + extra[:h], cache="dev", stage=1, populated_by=popspec)
-    job("jit-reuse-developer-cache", [fit("billing", dsb[0])] + extra[h:], cache="dev", stage=1, populated_by=popspec)
+    third = len(extra) // 3
+    job("jit-reuse-developer-cache", [fit("daily", dsd[1]), fit("billing", dsb[1])] + extra[:third], cache="dev", stage=1, populated_by=popspec)
+    job("jit-reuse-developer-cache", [fit("billing", dsb[0])] + extra[third:2 * third], cache="dev", stage=1, populated_by=popspec)
+    job("jit-reuse-developer-cache", extra[2 * third:], cache="dev", stage=1, populated_by=popspec)
     if thorough:
         jobs[0]["ops"] = jobs[0]["ops"] + [dev]          # the developer profile itself: warm shared cache vs cold
         pop2 = job("jit-populated-by-developer-profile", [dev, fit("billing", dsb[1]), fit("daily", dsd[2])], cache="dev8", stage=0, threads=8)
